@@ -541,8 +541,59 @@ fn abort_case(ch: &mut Choices<'_>, st: &mut Stats) -> CaseResult {
     Ok(())
 }
 
+/// Installation races: in a fresh process several threads call
+/// `panic_catcher_set_hook()` for the first time at chosen offsets (the
+/// verif-hooks pauses stretch the installer's steps) while other threads, whose
+/// own installation has returned and which have catching enabled, keep catching
+/// panics.  Every caught panic must come back with its own message.
+const SIG_INSTALL_RACE: &str = "install-race:err-text-lacks-panic-message";
+
+fn install_case(ch: &mut Choices<'_>, st: &mut Stats) -> CaseResult {
+    // the key is a vector of raw words (a function of seed and case index; schedules do not shrink)
+    let raw: Vec<u32> = (0..24).map(|_| ch.raw()).collect();
+    let ch = &mut Choices::new(&raw);
+    // per thread: (start offset us, pause before replacing us, pause while replacing us, catches)
+    let n = ch.range(2, 5);
+    let mut spec: Vec<String> = Vec::new();
+    let mut late_installer = false;
+    for t in 0..n {
+        let start = *ch.pick(&[0u64, 0, 200, 1000, 3000]);
+        let before = *ch.pick(&[0u64, 0, 500, 2000, 5000]);
+        let during = *ch.pick(&[0u64, 0, 500, 2000, 5000]);
+        let catches = *ch.pick(&[1usize, 5, 30, 100]);
+        if t > 0 && before + during > 0 {
+            late_installer = true;
+        }
+        spec.push(format!("{start}:{before}:{during}:{catches}"));
+    }
+    let arg = spec.join(",");
+    st.eval();
+    let (code, signal, out, err) = spawn_child(&["c19", "install", &arg], &[], None);
+    let out = String::from_utf8_lossy(&out).to_string();
+    let show = json!({
+        "threads (start offset us : pause before replacing the hook us : pause while replacing it us : number of catch_panic calls)": spec,
+        "child_stdout": out.lines().take(12).collect::<Vec<_>>(),
+        "exit": code, "signal": signal,
+    });
+    if let Some(l) = out.lines().find(|l| l.starts_with("BAD ")) {
+        return Err(Fail::new(SIG_INSTALL_RACE, format!("a thread whose panic_catcher_set_hook() had returned and which had catching enabled got: {l}"), show));
+    }
+    if code != Some(0) || !out.lines().any(|l| l == "DONE") {
+        let tail: String = String::from_utf8_lossy(&err).lines().rev().take(5).collect::<Vec<_>>().join(" | ");
+        return Err(Fail::new("install-race:child-died", format!("exit {code:?} signal {signal:?}; stderr tail: {tail}"), show));
+    }
+    st.class("install:child-ok");
+    if late_installer {
+        st.class("install:an-installer-paused-mid-installation");
+        st.nontrivial(&arg);
+    }
+    st.sample("install", || show.clone());
+    Ok(())
+}
+
 pub fn subs() -> Vec<Sub> {
     vec![
+        Sub { name: "install", f: Box::new(install_case) },
         Sub { name: "history", f: Box::new(history_case) },
         Sub { name: "pair", f: Box::new(pair_case) },
         Sub { name: "abort", f: Box::new(abort_case) },
@@ -782,6 +833,7 @@ pub fn run(run: &Run) {
          in which `return` only occurs with an open frame, up to the stated length, complete (open frames are then closed by returns and a final probe panic outside any frame is appended), plus random histories of up to 30 steps that also use set-Abort-then-Continue; \
          each executed for real on a fresh thread in a helper process with a sentinel hook installed before the catcher's, checked after every step against the abstract model (enabled flag, frame stack with catching bit, level, sentinel messages, last recorded message); \
          pair: two threads in lock step (a scheduler grants one step at a time), every interleaving of the explicit steps of two histories over {enable, disable, enter, return, panic} of up to 3 steps (complete in thorough; in quick a fixed stride sample plus every pair in which both threads open a catching frame), every interleaving of 3x3 template pairs that catch panics and call get_backtrace, plus random pairs of up to 8 steps each over the full alphabet, each thread checked against its own model and against its own history run alone; \
+         install: fresh children in which 2..5 threads call panic_catcher_set_hook() for the first time at generated offsets, with generated pauses (verif-hooks) before / while the installer replaces the process-wide hook, then enable catching and catch 1..1000 panics each - every error text must contain the thread's own message; \
          abort: dedicated children in which fallback mode Abort is set and a panic outside catch_panic must end the process with SIGABRT; \
          non-trivial history = (>=1 panic caught by a frame entered while enabled and >=1 panic inside only-transparent frames or outside any frame, the final probe not counted) or catching nesting >= 2; \
          non-trivial pair = some step of one thread runs while the other thread is inside a catching frame, or a thread enters catch_panic while the other thread's enabled flag is the opposite, or get_backtrace is asserted after the other thread caught a later panic",
@@ -809,6 +861,11 @@ pub fn run(run: &Run) {
     std::thread::scope(|scope| {
         // the abort children run next to the workers
         scope.spawn(|| run.fixed("abort", &[vec![0], vec![1], vec![2]], &*find_sub(&subs, "abort").unwrap().f));
+        scope.spawn(|| {
+            let seed = run.seed;
+            let key = move |i: u64| -> Vec<u32> { (0..24u32).map(|j| fingerprint(&(seed, "install", i, j)) as u32).collect() };
+            run.enumerate("install", run.tier.pick(48, 3_000), &key, &*find_sub(&subs, "install").unwrap().f)
+        });
         for w in 0..workers {
             let (cfg, found, counts, incomplete) = (&cfg, &found, &counts, &incomplete);
             scope.spawn(move || {
@@ -1389,10 +1446,65 @@ fn child_abort(variant: usize) -> i32 {
     0
 }
 
+fn child_install(spec: &str) -> i32 {
+    let threads: Vec<(u64, u64, u64, usize)> = spec
+        .split(',')
+        .filter_map(|t| {
+            let p: Vec<u64> = t.split(':').filter_map(|x| x.parse().ok()).collect();
+            (p.len() == 4).then(|| (p[0], p[1], p[2], p[3] as usize))
+        })
+        .collect();
+    if threads.is_empty() {
+        return 2;
+    }
+    // a previously installed hook, as in a host program (silent)
+    std::panic::set_hook(Box::new(|_| {}));
+    let barrier = std::sync::Barrier::new(threads.len());
+    let bad = std::sync::Mutex::new(Vec::<String>::new());
+    std::thread::scope(|sc| {
+        for (t, (start, before, during, catches)) in threads.iter().enumerate() {
+            let (barrier, bad) = (&barrier, &bad);
+            sc.spawn(move || {
+                barrier.wait();
+                std::thread::sleep(std::time::Duration::from_micros(*start));
+                wirefilter::verif::set_hook_install_pauses(*before, *during);
+                panic_catcher_set_hook();
+                panic_catcher_enable();
+                for k in 0..*catches {
+                    let msg = format!("boom-{t}-{k}");
+                    let m2 = msg.clone();
+                    match catch_panic(move || -> () { panic!("{}", m2) }) {
+                        Err(text) if text.contains(&msg) => {}
+                        Err(text) => {
+                            let first = text.lines().next().unwrap_or("").to_string();
+                            bad.lock().unwrap().push(format!("thread {t} catch #{k}: panic message {msg:?} missing from the error text, which starts {first:?}"));
+                            break;
+                        }
+                        Ok(()) => {
+                            bad.lock().unwrap().push(format!("thread {t} catch #{k}: catch_panic returned Ok for a panicking closure"));
+                            break;
+                        }
+                    }
+                    if k % 16 == 15 {
+                        std::thread::sleep(std::time::Duration::from_micros(100));
+                    }
+                }
+                panic_catcher_disable();
+            });
+        }
+    });
+    for b in bad.lock().unwrap().iter() {
+        println!("BAD {b}");
+    }
+    println!("DONE");
+    0
+}
+
 pub fn child(args: &[String]) -> i32 {
     match args.first().map(|s| s.as_str()) {
         Some("batch") => child_batch(args.get(1).and_then(|s| s.parse().ok())),
         Some("abort") => child_abort(args.get(1).and_then(|s| s.parse().ok()).unwrap_or(0)),
+        Some("install") => child_install(args.get(1).map(|s| s.as_str()).unwrap_or("")),
         _ => 2,
     }
 }
